@@ -52,14 +52,26 @@ def gen_case(rng, tier):
     if restr is not None and cols:
         kind = rng.choice(["calc", "sel", "sort", "join", "join"])
         a, b2 = rng.choice(cols), rng.choice(cols)
+        # 30%: the restricted call is nested in a function that declares support for every engine
+        # (explicitly or by default): support is a property of the whole expression tree
+        nested = rng.random() < 0.3
+        everywhere = ["sql", "it"]
+        inner = ["rfn", "neg", [["ref", a]], restr]
         if kind == "calc":
             free = [x for x in "efg" if x not in cols]
             if free:
-                f = {"kind": "calc", "node": ["calc", ["leaf", "__T__"], free[0], ["rfn", "add", [["ref", a], ["ref", b2]], restr], None]}
+                e = ["rfn", "add", [["ref", a], ["ref", b2]], restr]
+                if nested:
+                    e = rng.choice([["rfn", "add", [inner, ["ref", b2]], everywhere], ["sub", ["ref", b2], inner]])
+                f = {"kind": "calc", "node": ["calc", ["leaf", "__T__"], free[0], e, None]}
         elif kind == "sel":
-            f = {"kind": "sel", "node": ["sel", ["leaf", "__T__"], ["rcmp", "le", ["ref", a], ["ref", b2], restr], None]}
+            p = ["rcmp", "le", ["ref", a], ["ref", b2], restr]
+            if nested:
+                p = rng.choice([["rcmp", "le", inner, ["ref", b2], everywhere], ["cmp", "ge", ["ref", b2], inner]])
+            f = {"kind": "sel", "node": ["sel", ["leaf", "__T__"], p, None]}
         elif kind == "sort":
-            f = {"kind": "sort", "node": ["sort", ["leaf", "__T__"], [[["rfn", "neg", [["ref", a]], restr], True]], None]}
+            e = ["rfn", "sub", [inner, ["lit", 1]], everywhere] if nested else inner
+            f = {"kind": "sort", "node": ["sort", ["leaf", "__T__"], [[e, True]], None]}
         elif f["kind"] == "join":
             base_p = ["rcmp", "ge", ["ref", a], ["lit", 0], restr]
             # also predicates that fold to True as a whole but still hold the restricted function:
